@@ -54,19 +54,26 @@ class Loader:
 
     def _load_routine(self, current_inst):
         routine_name = current_inst.param0
-        self._routine_segment.append(current_inst)
+        self._move_to_routine_segment(current_inst)
         new_routine = Routine(routine_name)
         new_routine.set_address(len(self._routine_segment) + 1)
 
         inst = self._next_inst()
         while inst is not None and not (
                 inst.op_code is OpCode.END and inst.param0 == routine_name):
-            self._routine_segment.append(inst)
+            self._move_to_routine_segment(inst)
             inst = self._next_inst()
         if inst is not None:
-            self._routine_segment.append(inst)
+            self._move_to_routine_segment(inst)
         new_routine.set_return(len(self._routine_segment) + 1)
         return new_routine
+
+    def _move_to_routine_segment(self, inst):
+        # A definition may sit inside an if or repeat body, where relative
+        # jumps reach across it. Leave a no-op in its place so that moving
+        # the routine out of line doesn't shift any jump target.
+        self._routine_segment.append(inst)
+        self._main_segment.append(Instruction(OpCode.NOP))
 
     def get_code(self):
         if len(self._routine_segment) == 0:
